@@ -72,8 +72,11 @@ Lemma gen_chunksize_not_running : forall s vf vi vm vc cb ecb n p z,
     f_self__state s = PInt z -> z <> 0 ->
     chunksize_of s vf vi vm vc cb ecb n p = Ok PNone s.
 Proof.
-  intros s vf vi vm vc cb ecb n p z Hs Hz. unfold chunksize_of. rewrite Hs. unfold c_RUN.
-  pyred. replace (z =? 0) with false by lia. reflexivity.
+  intros s vf vi vm vc cb ecb n p z Hs Hz. unfold chunksize_of. rewrite Hs.
+  assert (Ht : py_ne (PInt z) c_RUN = PBool true).
+  { unfold c_RUN, py_ne, py_eq, py_not. cbn [as_int truth].
+    replace (z =? 0) with false by lia. reflexivity. }
+  rewrite Ht. reflexivity.
 Qed.
 
 (* ---- MapResult.__init__ ---- *)
@@ -112,6 +115,9 @@ Proof.
   destruct (a <? 0) eqn:Ea; destruct (b <? 0) eqn:Eb; lia.
 Qed.
 
+Lemma truthy_len {X} (l : list X) : list_truthy l = negb (Z.of_nat (length l) =? 0).
+Proof. destruct l; [reflexivity|]. cbn [length list_truthy]. lia. Qed.
+
 Lemma gen_set_ok_eq : forall {A E} (s : mres A E) (g : ghosts) (i : Z) (r : list A),
     mr_set (emb s g) (PInt i) (PBool true) (PInt (Z.of_nat (length r))) =
     match m_value s with
@@ -121,25 +127,27 @@ Lemma gen_set_ok_eq : forall {A E} (s : mres A E) (g : ghosts) (i : Z) (r : list
                       (with_slice g (i * m_k s) ((i + 1) * m_k s) (Z.of_nat (length r))))
     end.
 Proof.
-  intros A E s g i r. unfold mr_set, map_set.
+  intros A E s g i r. unfold mr_set, map_set, emb.
   destruct (m_value s) as [v|e] eqn:Hv.
   - pose proof (slice_assign_length v r (i * m_k s) ((i + 1) * m_k s)) as Hlen.
-    cbv zeta in Hlen.
-    unfold emb at 1. pyred. rewrite Hv. pyred.
+    cbv zeta in Hlen. rewrite truthy_len.
+    pyred.
     destruct (m_left s - 1 =? 0) eqn:El; pyred.
-    + destruct (m_has_cb s) eqn:Hcb; destruct (m_accepted s) as [|a0 acc] eqn:Hacc; pyred;
-        unfold emb, with_slice; pyred; rewrite ?Hcb, ?Hacc, ?app_length; pyred;
+    + destruct (m_has_cb s) eqn:Hcb;
+        destruct (Z.of_nat (length (m_accepted s)) =? 0) eqn:Hacc; pyred;
+        unfold with_slice; pyred; rewrite ?app_length; pyred;
         rewrite Hlen; repeat f_equal; lia.
-    + unfold emb, with_slice; pyred. rewrite Hlen. reflexivity.
-  - unfold emb. pyred. rewrite Hv. reflexivity.
+    + unfold with_slice; pyred. rewrite Hlen. reflexivity.
+  - pyred. reflexivity.
 Qed.
 
 Lemma gen_set_fail_eq : forall {A E} (s : mres A E) (g : ghosts) (i : Z) (e : E),
     mr_set (emb s g) (PInt i) (PBool false) (PBool true) =
     Ok PNone (emb (fst (map_set s (MFail i e))) g).
 Proof.
-  intros A E s g i e. unfold mr_set, map_set, emb. pyred.
-  destruct (m_has_ecb s) eqn:Hecb; destruct (m_accepted s) as [|a0 acc] eqn:Hacc;
+  intros A E s g i e. unfold mr_set, map_set, emb. rewrite truthy_len. pyred.
+  destruct (m_has_ecb s) eqn:Hecb;
+    destruct (Z.of_nat (length (m_accepted s)) =? 0) eqn:Hacc;
     pyred; rewrite ?app_length; pyred; repeat f_equal; lia.
 Qed.
 
